@@ -218,6 +218,75 @@ Definition icf_perm (c d : icf) : bool :=
   Nat.eqb (List.length (decode_f c)) (List.length (decode_f d)) &&
   forallb (fun p => same_multiset (fst p) (snd p)) (combine (decode_f c) (decode_f d)).
 
+(* ---- independent reference interpreters (oracles for C14 / C16) ---- *)
+Definition zget (mem : list (option Z)) (v : nat) : Z :=
+  match nth_error mem v with Some (Some z) => z | _ => 0%Z end.
+Definition known (mem : list (option Z)) (written : list nat) (v : nat) : bool :=
+  match nth_error mem v with
+  | Some (Some _) => true
+  | _ => negb (existsb (Nat.eqb v) written)      (* never written by anyone: holds the default *)
+  end.
+Fixpoint write_all (mem : list (option Z)) (ps : list (nat * Z)) : list (option Z) :=
+  match ps with [] => mem | (v, z) :: r => write_all (set_nth mem v (Some z)) r end.
+
+(* one pass: fire every unfired edge all of whose dependency predecessors (edges with a target node among
+   its source nodes — itself included) have fired *)
+Definition dep_preds (es : list (nat * pedge nat)) (e : pedge nat) : list nat :=
+  map fst (List.filter (fun p => existsb (fun v => existsb (Nat.eqb v) (pe_src e)) (pe_tgt (snd p))) es).
+Fixpoint ref_pass (all es : list (nat * pedge nat)) (written : list nat) (mem : list (option Z))
+                  (fired : list nat) : list (option Z) * list nat :=
+  match es with
+  | [] => (mem, fired)
+  | (i, e) :: r =>
+      if existsb (Nat.eqb i) fired then ref_pass all r written mem fired
+      else if forallb (fun j => existsb (Nat.eqb j) fired) (dep_preds all e) then
+        let outs := interp (pe_lbl e) (map (zget mem) (pe_src e)) in
+        ref_pass all r written (write_all mem (combine (pe_tgt e) outs)) (List.app fired [i])
+      else ref_pass all r written mem fired
+  end.
+Fixpoint ref_passes (fuel : nat) (es : list (nat * pedge nat)) (written : list nat)
+                    (mem : list (option Z)) (fired : list nat) : list (option Z) * list nat :=
+  match fuel with
+  | 0 => (mem, fired)
+  | Datatypes.S k => let '(mem', fired') := ref_pass es es written mem fired in ref_passes k es written mem' fired'
+  end.
+
+(* reference evaluation of a plain diagram: None = some operation never becomes ready (cycle) *)
+Definition ref_eval_mem (g : pohg nat nat) (inp : list Z) : option (list (option Z) * list nat) :=
+  let n := List.length (p_nodes g) in
+  let es := combine (seq 0 (List.length (p_edges g))) (p_edges g) in
+  let written := List.app (p_ins g) (flat_map (@pe_tgt nat) (p_edges g)) in
+  let mem0 := write_all (repeat None n) (combine (p_ins g) inp) in
+  let '(mem, fired) := ref_passes (Datatypes.S (List.length es)) es written mem0 [] in
+  if Nat.eqb (List.length fired) (List.length es) then Some (mem, fired) else None.
+Definition ref_eval (g : pohg nat nat) (inp : list Z) : option (list Z) :=
+  option_map (fun r => map (zget (fst r)) (p_outs g)) (ref_eval_mem g inp).
+
+(* reverse-mode sweep for the polynomial theory: adjoints of the inputs given adjoints of the outputs *)
+Definition zadd_at (adj : list Z) (v : nat) (z : Z) : list Z := set_nth adj v (wrap (Z.add (nth v adj 0%Z) z)).
+Definition rev_edge (mem : list (option Z)) (adj : list Z) (e : pedge nat) : list Z :=
+  let dz := fun k => nth (nth k (pe_tgt e) 0) adj 0%Z in
+  let xs := map (zget mem) (pe_src e) in
+  let s := fun k => nth k (pe_src e) 0 in
+  match pe_lbl e with
+  | 0 => zadd_at (zadd_at adj (s 0) (dz 0)) (s 1) (dz 0)
+  | 1 => zadd_at (zadd_at adj (s 0) (Z.mul (nth 1 xs 0%Z) (dz 0))) (s 1) (Z.mul (nth 0 xs 0%Z) (dz 0))
+  | 2 => zadd_at adj (s 0) (Z.opp (dz 0))
+  | 3 => zadd_at adj (s 0) (Z.add (dz 0) (dz 1))
+  | _ => adj
+  end.
+Definition poly_label (l : nat) : bool := Nat.ltb l 5 || Nat.leb 10 l.
+Definition ref_grad (g : pohg nat nat) (inp dy : list Z) : option (list Z) :=
+  match ref_eval_mem g inp with
+  | None => None
+  | Some (mem, fired) =>
+      let n := List.length (p_nodes g) in
+      let adj0 := fold_left (fun a p => zadd_at a (fst p) (snd p)) (combine (p_outs g) dy) (repeat 0%Z n) in
+      let adj := fold_left (fun a i => match nth_error (p_edges g) i with Some e => rev_edge mem a e | None => a end)
+                           (rev fired) adj0 in
+      Some (List.app (map (zget mem) (p_outs g)) (map (fun v => nth v adj 0%Z) (p_ins g)))
+  end.
+
 Definition d_ok (x : sx) : option sx := match x with L [Sy "ok"; v] => Some v | _ => None end.
 Definition d_some (x : sx) : option sx := match x with L [Sy "some"; v] => Some v | _ => None end.
 
@@ -255,6 +324,46 @@ Definition spec_case (c impl : sx) : sx :=
             else if negb (tres_rel (d_tres i2) (d_tres m2)) then fail_v "law-rhs-differs-from-model"
             else if tres_rel (d_tres i1) (d_tres i2) then ok_v else fail_v "law-sides-not-isomorphic"
         | _, _ => fail_v "law-shape"
+        end
+      else if String.eqb op "eval" then
+        (* independent oracle: reference interpreter on the plain model (single-writer diagrams) *)
+        match args with
+        | [_; f; inp] =>
+            match d_ohg f, d_zs inp with
+            | Some f', Some inp' =>
+                let expect := e_res (e_opt e_zs) (Ok (ref_eval (abs f') inp')) in
+                if sx_eqb impl expect then (if exact then ok_v else fail_v "oracle-ok-but-differs-from-model")
+                else fail_v "eval-differs-from-reference-interpreter"
+            | _, _ => fail_v "eval-shape"
+            end
+        | _ => fail_v "eval-shape"
+        end
+      else if String.eqb op "term_eval" then
+        match args with
+        | [_; L [Sy "optic_adapted"; Sy "poly"; L [Sy "l"; c0]]; inp] =>
+            (* independent oracle: forward values and reverse-mode sweep on the plain circuit *)
+            match d_lohg c0, d_zs inp with
+            | Some c', Some inp' =>
+                let g := labs c' in
+                let nin := List.length (p_ins g) in
+                if pending_free c' && forallb (fun e => poly_label (pe_lbl e)) (p_edges g) then
+                  let expect := e_res (e_opt e_zs) (Ok (ref_grad g (firstn nin inp') (skipn nin inp'))) in
+                  if sx_eqb impl expect then (if exact then ok_v else fail_v "oracle-ok-but-differs-from-model")
+                  else fail_v "adapted-optic-is-not-the-reverse-derivative"
+                else if exact then ok_v else fail_v "differs-from-model"
+            | _, _ => fail_v "term_eval-shape"
+            end
+        | [_; L [Sy "l"; c0]; inp] =>
+            match d_lohg c0, d_zs inp with
+            | Some c', Some inp' =>
+                if pending_free c' then
+                  let expect := e_res (e_opt e_zs) (Ok (ref_eval (labs c') inp')) in
+                  if sx_eqb impl expect then (if exact then ok_v else fail_v "oracle-ok-but-differs-from-model")
+                  else fail_v "eval-differs-from-reference-interpreter"
+                else if exact then ok_v else fail_v "differs-from-model"
+            | _, _ => fail_v "term_eval-shape"
+            end
+        | _ => if exact then ok_v else fail_v "differs-from-model"
         end
       else if exact then ok_v
       else if String.eqb op "term" then
